@@ -18,7 +18,7 @@ import itertools
 from fractions import Fraction
 from typing import Any
 
-from ..absexec import AbsExec, App, Internal, MObj, Opaque, Raised, Sym, SymModule, Unknown, _Return, freeze
+from ..absexec import AbsExec, App, Decisions, Internal, MObj, Opaque, Raised, Sym, SymModule, Unknown, _Return, freeze
 from ..algebra import Rat, Undefined
 from ..pm import AnalysisError
 from ..report import Check
@@ -86,9 +86,31 @@ def to_rat(t: Any, zero: set[str]) -> Rat:
     raise Unknown(f"`{f}` in the weighted formula")
 
 
+def _poly_sign(poly: Any) -> int | None:
+    """+1 / -1 when the polynomial is a sum of monomials in the (positive) degree symbols with coefficients of one sign, else None."""
+    if poly.is_zero():
+        return 0
+    if not all(isinstance(s_, str) for m in poly.t for s_, _ in m):
+        return None
+    signs = {1 if c > 0 else -1 for c in poly.t.values()}
+    return signs.pop() if len(signs) == 1 else None
+
+
+def rat_sign(d: Rat) -> int | None:
+    a, b = _poly_sign(d.n), _poly_sign(d.d)
+    return None if a is None or b is None or b == 0 else a * b
+
+
 def to_bool(t: Any, zero: set[str]) -> bool:
     if isinstance(t, bool):
         return t
+    if isinstance(t, App) and t.fn in ("np.any", "np.all", ".any", ".all", "np.count_nonzero", "truth") and t.args:
+        try:
+            return not to_rat(t.args[0], zero).is_zero()  # a degree that is not zero is a generic positive number
+        except IsNaN:
+            return True
+        except Unknown:
+            return to_bool(t.args[0], zero)  # any / all of a condition
     if isinstance(t, App) and t.fn.startswith("cmp:"):
         op = t.fn.split(":")[1]
         try:
@@ -101,13 +123,22 @@ def to_bool(t: Any, zero: set[str]) -> bool:
         if d.n.is_const() and d.d.is_const():
             v = d.n.const_value() / d.d.const_value()
             return {"Eq": False, "NotEq": True, "Lt": v < 0, "LtE": v <= 0, "Gt": v > 0, "GtE": v >= 0}[op]
-        if len(d.symbols()) == 1 and isinstance(next(iter(d.symbols())), str) and d.equals(Rat.sym(next(iter(d.symbols())))):
+        sg = rat_sign(d)  # the non-zero degrees are generic positive numbers: a sum of them (running totals, products) has a definite sign
+        if sg == 1:
             return {"Eq": False, "NotEq": True, "Lt": False, "LtE": False, "Gt": True, "GtE": True}[op]
-        if len(d.symbols()) == 1 and isinstance(next(iter(d.symbols())), str) and d.equals(-Rat.sym(next(iter(d.symbols())))):
+        if sg == -1:
             return {"Eq": False, "NotEq": True, "Lt": True, "LtE": True, "Gt": False, "GtE": False}[op]
         raise Unknown("a comparison other than of a degree with zero in the weighted formula")
     if isinstance(t, App) and t.fn in ("unop:Invert", "unop:Not", "np.logical_not"):
         return not to_bool(t.args[0], zero)
+    if isinstance(t, App) and t.fn in ("binop:BitAnd", "np.logical_and", "binop:BitOr", "np.logical_or") and len(t.args) == 2:
+        x, y = to_bool(t.args[0], zero), to_bool(t.args[1], zero)
+        return (x and y) if t.fn in ("binop:BitAnd", "np.logical_and") else (x or y)
+    if isinstance(t, (Sym, App, int, float)) and not isinstance(t, bool):
+        try:
+            return not to_rat(t, zero).is_zero()  # the truth value of a number
+        except IsNaN:
+            return True
     if isinstance(t, App) and t.fn in ("np.isnan",):
         try:
             to_rat(t.args[0], zero)
@@ -140,37 +171,58 @@ def weighted_semantics(check: Check, rule: str = "W-sem") -> None:
                                          "membership": (lambda ex_, e, args, kw, i=i: App("membership", (f"t{i}", freeze(args[0])))),
                                          "tsukamoto": (lambda ex_, e, args, kw, i=i: App("tsukamoto", (f"t{i}", freeze(args[0]))))})
 
-                groups = {f"t{i}": MObj("Activated", {"term": term(i), "degree": Sym(f"w{i}"), "implication": None, "__bool__": True}) for i in range(k)}
-                raw = []
-                for i in range(k):
-                    if i == 0:  # the first term is activated twice: its grouped degree is the aggregation of two degrees of their own
-                        raw += [MObj("Activated", {"term": term(i), "degree": Sym("w0a"), "__bool__": True}), MObj("Activated", {"term": term(i), "degree": Sym("w0b"), "__bool__": True})]
-                    else:
-                        raw.append(MObj("Activated", {"term": term(i), "degree": Sym(f"w{i}"), "__bool__": True}))
-                fuzzy = MObj("Aggregated", {"terms": raw, "aggregation": None, "name": "out", "__bool__": True, "__bases__": ("Term",)})
-                me = MObj(cname, {"type": fixed, "__bases__": ("WeightedDefuzzifier", "Defuzzifier")})
-                hooks = {"method:grouped_terms": lambda ex_, e, recv, args, kw: dict(groups),
-                         "method:infer_type": lambda ex_, e, recv, args, kw: inferred,
-                         "method:__getattribute__": lambda ex_, e, recv, args, kw: recv.fields[args[0]] if isinstance(recv, MObj) and args and args[0] in recv.fields else
-                         (_ for _ in ()).throw(Internal("AttributeError", "no such attribute", e))}
-                ex = AbsExec(fn.qualname, hooks, helpers={k_: v for k_, v in fn.cls.methods.items() if k_ not in ("defuzzify", "infer_type", "__init__")})
-                ex.globals = {"np": NP, "Aggregated": ("class", "Aggregated"), "WeightedDefuzzifier": MObj("class", {"Type": type_ns}), "Activated": ("class", "Activated"),
-                              "Term": MObj("class", {"tsukamoto": MObj("function", {"__name__": "tsukamoto"}), "membership": MObj("function", {"__name__": "membership"})}),
-                              "scalar": lambda ex_, e, args, kw: App("np.asarray", (freeze(args[0]),)), "array": lambda ex_, e, args, kw: App("np.asarray", (freeze(args[0]),)),
-                              "nan": float("nan"), "inf": float("inf"),  # scalar(x) is a numpy number: dividing it by zero is nan / inf, not an exception
-                              "Scalar": Opaque("type")}
                 what = f"{k} activated term(s), type {fixed}" + (f" (inferred {inferred})" if fixed == "Automatic" else "")
-                try:
-                    got: Any = None
+                paths: list[tuple[list[tuple[Any, bool]], Any, str | None]] = []  # (tests made on symbolic values with their outcomes, result, exception)
+
+                def one(decide: Any) -> None:
+                    groups = {f"t{i}": MObj("Activated", {"term": term(i), "degree": Sym(f"w{i}"), "implication": None, "__bool__": True}) for i in range(k)}
+                    raw = []
+                    for i in range(k):
+                        if i == 0:  # the first term is activated twice: its grouped degree is the aggregation of two degrees of their own
+                            raw += [MObj("Activated", {"term": term(i), "degree": Sym("w0a"), "__bool__": True}), MObj("Activated", {"term": term(i), "degree": Sym("w0b"), "__bool__": True})]
+                        else:
+                            raw.append(MObj("Activated", {"term": term(i), "degree": Sym(f"w{i}"), "__bool__": True}))
+                    fuzzy = MObj("Aggregated", {"terms": raw, "aggregation": None, "name": "out", "__bool__": True, "__bases__": ("Term",)})
+                    me = MObj(cname, {"type": fixed, "__bases__": ("WeightedDefuzzifier", "Defuzzifier")})
+                    assumed: list[tuple[Any, bool]] = []
+
+                    def decide_(ex_: Any, v: Any, e: Any) -> bool:
+                        r_ = decide(ex_, v, e)
+                        assumed.append((freeze(v), r_))
+                        return r_
+
+                    hooks = {"method:grouped_terms": lambda ex_, e, recv, args, kw: dict(groups),
+                             "method:infer_type": lambda ex_, e, recv, args, kw: inferred, "decide": decide_,
+                             "method:__getattribute__": lambda ex_, e, recv, args, kw: recv.fields[args[0]] if isinstance(recv, MObj) and args and args[0] in recv.fields else
+                             (_ for _ in ()).throw(Internal("AttributeError", "no such attribute", e))}
+                    ex = AbsExec(fn.qualname, hooks, helpers={k_: v for k_, v in fn.cls.methods.items() if k_ not in ("defuzzify", "infer_type", "__init__")})
+                    ex.globals = {"np": NP, "Aggregated": ("class", "Aggregated"), "WeightedDefuzzifier": MObj("class", {"Type": type_ns}), "Activated": ("class", "Activated"),
+                                  "Term": MObj("class", {"tsukamoto": MObj("function", {"__name__": "tsukamoto"}), "membership": MObj("function", {"__name__": "membership"})}),
+                                  "scalar": lambda ex_, e, args, kw: App("np.asarray", (freeze(args[0]),)), "array": lambda ex_, e, args, kw: App("np.asarray", (freeze(args[0]),)),
+                                  "nan": float("nan"), "inf": float("inf"),  # scalar(x) is a numpy number: dividing it by zero is nan / inf, not an exception
+                                  "Scalar": Opaque("type")}
                     try:
-                        ex.block(list(node.body), {params[0]: me, params[1]: fuzzy, **{q: float("nan") for q in params[2:]}})
-                    except _Return as r_:
-                        got = r_.value
-                except (Raised, Internal) as err:
-                    bad.setdefault("no-internal-error", f"{what}: the method ends with {err.cls}")
-                    continue
+                        got_: Any = None
+                        try:
+                            ex.block(list(node.body), {params[0]: me, params[1]: fuzzy, **{q: float("nan") for q in params[2:]}})
+                        except _Return as r_:
+                            got_ = r_.value
+                    except (Raised, Internal) as err:
+                        paths.append((assumed, None, err.cls))
+                        return
+                    paths.append((assumed, got_, None))
+
+                Decisions(limit=256).explore(one)
                 for zero in (set(z) for n_ in range(k + 1) for z in itertools.combinations([f"w{i}" for i in range(k)], n_)):
                     cases += 1
+                    # the execution whose tests on the degrees come out the way this choice of zero degrees says
+                    live_paths = [pth for pth in paths if all(to_bool(c_, zero) == o_ for c_, o_ in pth[0])]
+                    if len(live_paths) != 1:
+                        raise Unknown(f"{len(live_paths)} executions are consistent with the zero degrees {sorted(zero)}")
+                    if live_paths[0][2] is not None:
+                        bad.setdefault("no-internal-error", f"{what}, zero degrees {sorted(zero) or 'none'}: the method ends with {live_paths[0][2]}")
+                        continue
+                    got = live_paths[0][1]
                     live = [i for i in range(k) if f"w{i}" not in zero]
                     num = Rat.const(0)
                     den = Rat.const(0)
